@@ -714,8 +714,45 @@ func pmRealMain(args []string) {
 	}
 	addr := probe.Addr().String()
 	probe.Close()
+	// `K` as the first token: one of the initial workers dies while the master is still creating them (it is killed the moment
+	// it exists); the answer is then `ok boot <live workers> <refCount> <len(childs)>` once nothing has changed for 1.5 s
+	bootKill := len(toks) > 0 && toks[0] == "K"
+	if bootKill {
+		go func() {
+			deadline := time.Now().Add(3 * time.Second)
+			for time.Now().Before(deadline) {
+				for _, p := range m.scanChildren() {
+					cl, err := os.ReadFile("/proc/" + strconv.Itoa(p.pid) + "/cmdline")
+					if err == nil && strings.Contains(string(cl), "--child-worker") {
+						syscall.Kill(p.pid, syscall.SIGKILL)
+						return
+					}
+				}
+				time.Sleep(200 * time.Microsecond)
+			}
+		}()
+	}
 	errCh := make(chan error, 1)
 	go func() { errCh <- m.srv.StartMaster("tcp://"+addr, cfg) }()
+	if bootKill {
+		time.Sleep(300 * time.Millisecond)
+		m.waitQuiet(1500*time.Millisecond, 12*time.Second)
+		live := 0
+		for _, p := range m.scanChildren() {
+			cl, err := os.ReadFile("/proc/" + strconv.Itoa(p.pid) + "/cmdline")
+			if err == nil && strings.Contains(string(cl), "--child-worker") {
+				live++
+			}
+		}
+		ref, nch := m.srv.VerifCounters()
+		select {
+		case <-errCh:
+			answer("err master")
+		default:
+			answer(fmt.Sprintf("ok boot %d %d %d", live, ref, nch))
+		}
+		return
+	}
 
 	idx := make([]string, initN)
 	for i := range idx {
